@@ -955,31 +955,6 @@ Lemma c_handleWrite_unfold c k :
     | _ => Fault
     end
   else Ok (c, []).                                                           (* :401-405 *)
-
-(* TcpConnection::handleRead, TcpConnection.cc:347-366; [k] is the kernel's answer to the readv
-   of Buffer::readFd (Buffer.cc:25-58): KData avail = the descriptor has [avail] ready,
-   KErr e = -1 with errno e *)
-Definition c_handleRead (c : cconn) (k : B.kres) : res (cconn * list event) :=
-  let a := ctl c in
-  match B.readFd k (ibuf c) with                                             (* :351 *)
-  | B.Ok (ib', r) =>
-      if (0 <? B.rf_n r)%Z then                                              (* :352 n > 0 *)
-        Ok (mkCC (mkConn (st a) [] [] (writing a) (rd_chan a) (rd_flag a) (registered a) (hwm a)
-                         (has_wc a) (has_hwm a) (wire a) (fin a) (pending a) (chk a) (delayed a) (accepted a)
-                         (consumed a)
-                         (delivered a ++ B.delivered (B.readFd_capacity (ibuf c)) k)   (* ghost *)
-                         (enq a) (ran a) (ups a) (downs a))
-                 (obuf c) ib',
-            [EvMsg (B.readableBytes ib')])                                   (* :354 *)
-      else if (B.rf_n r =? 0)%Z then                                         (* :356 n == 0 *)
-        match handleCloseChecked a with                                      (* :358 *)
-        | Ok (a', e) => Ok (mkCC a' (obuf c) ib', e)
-        | Rejected => Rejected
-        | Fault => Fault
-        end
-      else Ok (mkCC a (obuf c) ib', [EvErrorLogged])                         (* :360-365 *)
-  | _ => Fault
-  end.
 Proof. reflexivity. Qed.
 
 Lemma c_handleRead_unfold c k :
